@@ -47,6 +47,11 @@ def handleImgIo2 (what : String) (args : List String) : String :=
           | none => "E"
           | some (ws, r) => s!"{Proto.showInts ws};{showArr r}"
     | "gfull" => opt (imagestack_get_full (K := Rat) a)
+    | "ggrayget" =>
+      -- `ggrayget … key=i,j,k fuel=n` → the GENERATED `GrayImageStack.__getitem__` with recursion depth `n` (`E` = no result)
+      match Proto.argInts args "key", Proto.argInts args "fuel" with
+      | some [i, j, k], some [n] => opt (gray_getitem (K := Rat) n.toNat (i, j, k))
+      | _, _ => "bad-args"
     | "ggray" => opt (gray_get_full (K := Rat) a)
     | "gframend" =>
       match Proto.argInts args "pids", Resample.argRats args "x", Resample.argRats args "y", Resample.argRats args "z",
